@@ -9,7 +9,7 @@ from .values import *
 BUILTINS = {"len", "int", "float", "range", "min", "max", "abs", "round", "sum", "zip", "enumerate",
             "isinstance", "dict", "list", "tuple", "str", "bool", "complex", "sorted", "set", "getattr",
             "callable", "print", "all", "any", "super", "type", "hasattr", "ValueError", "TypeError",
-            "RuntimeError", "KeyError", "AttributeError", "NotImplementedError", "Exception", "reversed", "map", "slice", "IndexError", "ZeroDivisionError", "dir", "vars", "id", "globals"}
+            "RuntimeError", "KeyError", "AttributeError", "NotImplementedError", "Exception", "reversed", "map", "slice", "IndexError", "ZeroDivisionError", "dir", "vars", "id", "globals", "hash"}
 
 KIND.setdefault("pi", "pos")
 KIND.setdefault("inf", "pos")
